@@ -40,6 +40,7 @@ func corrEnc(o *Out, v *Val, pre []byte, m BufMode) EncResult {
 	line := "enc " + hexOf(pre) + " " + v.String()
 	begin(line)
 	r := goEnc(v, pre, m)
+	begin("")
 	o.emit(line, r.Line(), fmt.Sprintf("enc:%d:%s:%s:%d", v.Ty, r.Class, lenClass(len(r.Appended)), m.Consumed+m.Spare), len(v.Fs) > 0)
 	o.stat("enc-" + r.Class)
 	return r
@@ -49,6 +50,7 @@ func corrDec(o *Out, ty int, data []byte, m BufMode) DecResult {
 	line := fmt.Sprintf("dec %d %s", ty, hexOf(data))
 	begin(line)
 	r := goDec(ty, data, m)
+	begin("")
 	o.emit(line, r.Line(), fmt.Sprintf("dec:%d:%s:%s:%d", ty, r.Class, lenClass(len(data)), m.Consumed+m.Spare), len(data) > 0)
 	o.stat("dec-" + r.Class)
 	return r
